@@ -7,32 +7,11 @@ From V.C04 Require Import Model Glue.
 Import ListNotations.
 Open Scope N_scope.
 
-Definition run_c04 (l : list N) : list N :=
-  match decode_case l with
-  | Some t =>
-      let '(wt, s) := run_writer (t_codec t) (init_sys (t_wscript t)) (t_ops t) in
-      1 :: wt ++ run_polls (N.to_nat (t_polls t)) (t_codec t) (init_r (t_codec t))
-                           (sent s ++ t_raw t) (t_rscript t)
-  | None => [0]
-  end.
-
-Definition ok_c04 (case trace : list N) : bool :=
-  match decode_case case, trace with
-  | Some t, 1 :: body =>
-      match pall (let* w := p_wtrace (t_ops t) in
-                  let* r := prep (N.to_nat (t_polls t)) p_robs in pret (w, r)) body with
-      | Some (w, r) =>
-          match wtrace_ok (t_codec t) (t_ops t) w zero_wobs [] [] false with
-          | Some (acc, total, broken) => rtrace_ok t r acc total broken
-          | None => false
-          end
-      | None => false
-      end
-  | None, [0] => true
-  | _, _ => false
-  end.
-
-Lemma run_c04_in_sync : run_c04 = run_case.
+(* the other property's own composition, used as is (ocaml/build_model.sh aliases the requested
+   names after monolithic extraction, so no copy is needed any more) *)
+Definition run_c04 : list N -> list N := V.C04.Glue.run_case.
+Definition ok_c04 : list N -> list N -> bool := V.C04.Glue.prop_ok.
+Lemma run_c04_in_sync : run_c04 = V.C04.Glue.run_case.
 Proof. reflexivity. Qed.
-Lemma ok_c04_in_sync : ok_c04 = prop_ok.
+Lemma ok_c04_in_sync : ok_c04 = V.C04.Glue.prop_ok.
 Proof. reflexivity. Qed.
